@@ -569,3 +569,5 @@ func runC03(c c03Case) *vlib.Outcome {
 func TestC03(t *testing.T) {
 	vlib.Check(t, "C03", genC03, runC03)
 }
+
+func FuzzC03(f *testing.F) { vlib.Fuzz(f, "C03", genC03, runC03) }
